@@ -86,7 +86,8 @@ def gen_project(rng, max_files=5, max_pats=4, shared_lines=True, mixed_endings=T
     if "MM" not in vpat and "0M" not in vpat:
         templates = [t for t in templates if "0M" not in t]
     nfiles = rng.randint(1, max_files)
-    pool = ["README.md", "setup.py", "src/pkg/__init__.py", "docs/conf.py", "VERSION", "a b.txt", "Änderungen.txt", "pyproject.txt"]
+    # (one candidate shares the config file's NAME in another directory: the config file's own entry is a different file)
+    pool = ["README.md", "setup.py", "src/pkg/__init__.py", "docs/conf.py", "VERSION", "a b.txt", "Änderungen.txt", "pyproject.txt", "packages/core/bumpver.toml"]
     if ascii_names:
         pool = [n for n in pool if n.isascii()]       # file NAME encoding under an ASCII locale is the OS's business, not bumpver's
     names = rng.sample(pool, min(nfiles, len(pool)))
@@ -141,6 +142,17 @@ def gen_project(rng, max_files=5, max_pats=4, shared_lines=True, mixed_endings=T
     pr["files"] = materialize(pr, old)
     pr["expected_files"] = materialize(pr, new)
     pr["file_patterns"] = [[f["name"], [[vpat, raw] for raw in f["raws"]]] for f in layout]
+    # spelling variants of the configuration that mean the same thing (used by the checks that opt in with pr["variants"] = True):
+    # the config file's own current_version line left to the IMPLICIT pattern, and file keys written as valid but
+    # non-normalised paths (./x, a//b)
+    pr["implicit_self"] = rng.random() < 0.35
+    pr["key_alias"] = {}
+    for f in layout:
+        r = rng.random()
+        if r < 0.12:
+            pr["key_alias"][f["name"]] = "./" + f["name"]
+        elif r < 0.2 and "/" in f["name"]:
+            pr["key_alias"][f["name"]] = f["name"].replace("/", "//", 1)
     return pr
 
 
@@ -227,8 +239,11 @@ def cli_flags(pr):
 def toml_config(pr, extra=""):
     def q(s):
         return json.dumps(s, ensure_ascii=False)
-    out = ["[bumpver]", "current_version = %s" % q(pr["old"]), "version_pattern = %s" % q(pr["vp"]), extra, "[bumpver.file_patterns]",
-           '"bumpver.toml" = [\'current_version = "{version}"\']']
+    variants = bool(pr.get("variants"))
+    out = ["[bumpver]", "current_version = %s" % q(pr["old"]), "version_pattern = %s" % q(pr["vp"]), extra, "[bumpver.file_patterns]"]
+    if not (variants and pr.get("implicit_self")):
+        out.append('"bumpver.toml" = [\'current_version = "{version}"\']')
     for path, pairs in pr["file_patterns"]:
-        out.append("%s = [%s]" % (q(path), ", ".join(q(raw) for _vp, raw in pairs)))
+        key = pr.get("key_alias", {}).get(path, path) if variants else path
+        out.append("%s = [%s]" % (q(key), ", ".join(q(raw) for _vp, raw in pairs)))
     return "\n".join(x for x in out if x) + "\n"
